@@ -216,4 +216,104 @@ theorem run_invariant (env : Env α) : ∀ (ops : List (Op α)) (a : Arr α), Ga
     simp only [run, shadowRun] at ih
     exact ⟨ih.1, ih.2.1, by rw [ih.2.2, key.2.2]⟩
 
+
+/-- any property of the positional descriptor list that accepted calls preserve holds along every history -/
+theorem run_shadow_invariant (env : Env α) (P : List (Desc α) → Prop)
+    (hP : ∀ (s : Shadow α) (op : Op α), P s.dims → illegal env s op = false → P (s.apply env op).dims) :
+    ∀ (ops : List (Op α)) (a : Arr α), GapFree a → P (toShadow a).dims → P (toShadow (run env a ops)).dims
+  | [], a, _, hp => hp
+  | op :: rest, a, h, hp => by
+    have hr := step_refines env h op
+    unfold Refines at hr
+    simp only [run, List.foldl_cons]
+    have key : GapFree (next env a op) ∧ P (toShadow (next env a op)).dims := by
+      unfold next
+      cases hs : step env a op with
+      | error e => exact ⟨h, hp⟩
+      | ok r =>
+        obtain ⟨a', n⟩ := r
+        rw [hs] at hr
+        refine ⟨hr.2.2, ?_⟩
+        rw [hr.2.1]
+        cases op with
+        | reopen r => exact hp
+        | _ =>
+          apply hP _ _ hp
+          have := hr.1; simp [accepts] at this; exact this.2
+    have := run_shadow_invariant env P hP rest (next env a op) key.1 key.2
+    simpa [run] using this
+
+/-- an alias, if any, is the first descriptor -/
+def AliasFirstS (l : List (Desc α)) : Prop := ∀ k d, l[k]? = some d → isAlias d = true → k = 0
+
+theorem aliasFirst_modifyAt {l : List (Desc α)} (h : AliasFirstS l) (i : Nat) (f : Desc α → Desc α)
+    (hf : ∀ d, isAlias (f d) = true → isAlias d = true) : AliasFirstS (modifyAt i f l) := by
+  unfold modifyAt
+  split
+  · exact h
+  · intro k d hk hd
+    rw [List.getElem?_modify] at hk
+    split at hk
+    · cases hl : l[k]? with
+      | none => simp [hl] at hk
+      | some d0 => simp [hl] at hk; exact h k d0 hl (hf d0 (hk ▸ hd))
+    · simp at hk; exact h k d hk hd
+
+theorem aliasFirst_append {l : List (Desc α)} (h : AliasFirstS l) (d : Desc α) (hd : isAlias d = false) : AliasFirstS (l ++ [d]) := by
+  intro k x hk hx
+  by_cases hlt : k < l.length
+  · rw [List.getElem?_append_left hlt] at hk; exact h k x hk hx
+  · rw [List.getElem?_append_right (by omega)] at hk
+    cases hm : k - l.length with
+    | zero => simp [hm] at hk; rw [← hk, hd] at hx; cases hx
+    | succ m => simp [hm] at hk
+
+theorem aliasFirst_apply (env : Env α) (s : Shadow α) (op : Op α) (h : AliasFirstS s.dims) (hl : illegal env s op = false) :
+    AliasFirstS (s.apply env op).dims := by
+  cases op with
+  | appendSet l => exact aliasFirst_append h _ rfl
+  | appendRange t l u => exact aliasFirst_append h _ rfl
+  | appendSampled si l u o => exact aliasFirst_append h _ rfl
+  | appendFrame f c => exact aliasFirst_append h _ rfl
+  | appendAlias =>
+    simp [illegal] at hl
+    simp only [Shadow.apply, hl.1.2]
+    intro k d hk _
+    cases k with
+    | zero => rfl
+    | succ m => simp at hk
+  | deleteDims => intro k d hk; simp [Shadow.apply] at hk
+  | setLabel i v =>
+    simp only [Shadow.apply]
+    cases s.get i with
+    | none => exact h
+    | some d => by_cases ha : isAlias d = true <;> simp only [ha, if_true, if_false]
+                · exact h
+                · exact aliasFirst_modifyAt h i _ (fun d hd => by simpa [isAlias] using hd)
+  | setUnit i v =>
+    simp only [Shadow.apply]
+    cases s.get i with
+    | none => exact h
+    | some d => by_cases ha : isAlias d = true <;> simp only [ha, if_true, if_false]
+                · exact h
+                · exact aliasFirst_modifyAt h i _ (fun d hd => by simpa [isAlias] using hd)
+  | setInterval i v =>
+    exact aliasFirst_modifyAt h i _ (fun d hd => by cases hb : d.body <;> simp [isAlias, hb] at hd ⊢)
+  | setOffset i v =>
+    exact aliasFirst_modifyAt h i _ (fun d hd => by cases hb : d.body <;> simp [isAlias, hb] at hd ⊢)
+  | setTicks i v =>
+    simp only [Shadow.apply]
+    cases s.get i with
+    | none => exact h
+    | some d => by_cases ha : isAlias d = true <;> simp only [ha, if_true, if_false]
+                · exact h
+                · exact aliasFirst_modifyAt h i _ (fun d hd => by simp [isAlias] at hd)
+  | setLabels i v => exact aliasFirst_modifyAt h i _ (fun d hd => by simp [isAlias] at hd)
+  | arrLabel v => exact h
+  | arrUnit v => exact h
+  | arrData v => exact h
+  | arrExtent sh => simp only [Shadow.apply]; split <;> exact h
+  | reopen r => exact h
+
+
 end Nix.C13
